@@ -182,6 +182,8 @@ def helpers():
         return bool(a) == bool(b)
 
     def at(x, i):
+        if isinstance(x, np.ndarray) and x.ndim == 0:      # squeeze() of a one-entry array
+            return x[()]
         return x[i] if isinstance(x, (np.ndarray, list, tuple)) else x
 
     def ite(c, a, b):
